@@ -100,18 +100,19 @@ def impl_case(args) -> dict:
             if not da:
                 continue
             cmd = rng.choice(["dry", "magic-numbers", "nesting", "stringly-typed"])
-            code, stdout = core.run_cli([cmd, "--format", "json"] + fa + da, cwd=proj)
+            recursive = rng.random() < 0.6
+            code, stdout = core.run_cli([cmd, "--format", "json"] + ([] if recursive else ["--no-recursive"]) + fa + da, cwd=proj)
             vs = core.violations_json(stdout)
             dcont = []
             for d in da:
-                dcont.append([fid[str(f.relative_to(proj))] for f in collect_files(proj / d, True) if str(f.relative_to(proj)) in fid])
+                dcont.append([fid[str(f.relative_to(proj))] for f in collect_files(proj / d, recursive) if str(f.relative_to(proj)) in fid])
             merged = list(dict.fromkeys([fid[f] for f in fa] + [x for dc in dcont for x in dc]))
             fresh([rels[i] for i in merged])
             if fa and len(fa) > 0:
                 fresh(fa)
             for dc in dcont:
                 fresh([rels[i] for i in dc])
-            mixed.append({"cmd": cmd, "files": [fid[f] for f in fa], "dirs": dcont, "exit": code,
+            mixed.append({"cmd": cmd, "files": [fid[f] for f in fa], "dirs": dcont, "exit": code, "recursive": recursive,
                           "impl": None if vs is None else sorted(norm_cli(v, proj) for v in vs), "raw": stdout[:200] if vs is None else ""})
         out["mixed"] = mixed
         # API vs CLI per linter, file and directory targets
@@ -125,6 +126,17 @@ def impl_case(args) -> dict:
                 got = Linter(project_root=proj).lint(proj / t if t != "." else proj, rules=[linter_name])
                 api.append({"cmd": cmd, "target": t, "exit": code, "cli": None if vs is None else sorted(norm_cli(v, proj) for v in vs),
                             "api": sorted(norm_api(v, proj) for v in got)})
+        # explicit config file (sometimes empty) next to a project config that matters
+        (proj / "alt-config.yaml").write_text(rng.choice(["# stock defaults\n", "nesting:\n  max_nesting_depth: 2\n", "{}\n"]))
+        (proj / ".thailint.yaml").write_text(DEFAULT_CFG + "nesting:\n  max_nesting_depth: 9\nmagic-numbers:\n  allowed_numbers: [0, 1, 2]\n  max_small_integer: 100000\n")
+        for cmd, linter_name in (("nesting", "nesting"), ("magic-numbers", "magic-numbers")):
+            t = rng.choice(targets)
+            code, stdout = core.run_cli(["--project-root", str(proj), cmd, "--config", str(proj / "alt-config.yaml"), "--format", "json", t], cwd=proj)
+            vs = core.violations_json(stdout)
+            core._reset_singletons()
+            got = Linter(config_file=proj / "alt-config.yaml", project_root=proj).lint(proj / t if t != "." else proj, rules=[linter_name])
+            api.append({"cmd": cmd + " --config alt-config.yaml", "target": t, "exit": code, "cli": None if vs is None else sorted(norm_cli(v, proj) for v in vs),
+                        "api": sorted(norm_api(v, proj) for v in got)})
         out["api"] = api
         out["perfile"], out["fin"], out["n"] = perfile, fin, len(rels)
     except Exception as exc:  # noqa: BLE001
